@@ -31,7 +31,11 @@ func main() {
 		}
 		genStats(os.Args[2], runs, blocks)
 	case "dumpkeys":
-		dumpKeys(12345)
+		names := ""
+		if len(os.Args) > 2 {
+			names = os.Args[2]
+		}
+		dumpKeys(12345, names)
 	default:
 		fmt.Fprintln(os.Stderr, "unknown command", os.Args[1])
 		os.Exit(2)
